@@ -38,7 +38,13 @@ LIKELY_IDS = ["S1", "S2", "S3", "N1", "N2", "SU", "I1", "I2", "I3", "J1", "J2", 
 # the ID strings of one case / behaviour, applied to the abstract running order AND the abstract messages before
 # anything is rendered or judged (TLC then simply sees other strings).
 # ------------------------------------------------------------------------------------------
-ID_STYLES = ("plain", "plain", "prefix", "special", "case", "spaces", "long")
+ID_STYLES = ("plain", "plain", "prefix", "special", "case", "spaces", "long", "numeric", "words", "xpath", "verylong",
+             "unicode", "trail")
+NUMERIC_IDS = ["9", "10", "007", "7", "1e3", "0", "-1", "100", "1.0", "1", "0x1F", "+5", "1000", "٣", "1_0", "00"]
+WORD_IDS = ["None", "True", "False", "nan", "null", "story", "item", "storyID", "itemID", "p", "roCreate", "id", "self",
+            "mos", "undefined", "NaN"]
+XPATH_IDS = ["a/b", "x]y", "[1]", "{urn:x}t", "*", ".", "..", "@id", "a|b", "//", "text()", "a'b\"c", "story[1]", "./item",
+             "a=b", "(x)"]
 
 
 def id_style_map(style):
@@ -59,6 +65,15 @@ def id_style_map(style):
             y = "".join(ch.upper() if (n >> i) & 1 else ch for i, ch in enumerate(base)) + ("" if n < 32 else str(n))
         elif style == "spaces":        # inner blanks and dots; never leading / trailing ones
             y = "a" + " " * n + "b.c"
+        elif style in ("numeric", "words", "xpath"):     # ids that look like numbers, keywords / tag names, path expressions
+            pool = {"numeric": NUMERIC_IDS, "words": WORD_IDS, "xpath": XPATH_IDS}[style]
+            y = pool[n - 1] if n <= len(pool) else "%s#%d" % (pool[n % len(pool)], n)
+        elif style == "verylong":      # ids of 300+ characters that differ only at the very end
+            y = "V" * 300 + "%03d" % n
+        elif style == "unicode":       # pairs that differ only by Unicode normalisation; characters outside the BMP
+            y = ("caf\u00e9" if n % 2 else "cafe\u0301") + "\U0001F642%d" % ((n + 1) // 2)
+        elif style == "trail":         # pairs that differ only by a trailing line feed
+            y = "id%d" % ((n + 1) // 2) + ("" if n % 2 else "\n")
         else:                          # long ids with a common 60-character head
             y = "L" * 60 + "-%03d-" % n + x
         cache[x] = y
@@ -90,6 +105,7 @@ class Gamma:
         r = random.Random("%s|style" % seed)
         self.pretty = r.random() < 0.5 if style is None else style == "pretty"
         self.decl = r.random() < 0.3
+        self.noise = r.random() < 0.3
         self.rich = True
 
     def rng(self, *key):
@@ -101,6 +117,12 @@ class Gamma:
         n = r.randint(1, 3)
         return " ".join(r.choice(WORDS) for _ in range(n))
 
+    def chars(self, r, text):
+        """character data: escaped, or now and then as a CDATA section (the same text to every parser)"""
+        if r.random() < 0.12 and "]]>" not in text and "\r" not in text:
+            return "<![CDATA[%s]]>" % text
+        return escape(text)
+
     def rich_children(self, r, depth):
         """a list of XML fragments (elements with optional tails)"""
         out = []
@@ -109,6 +131,8 @@ class Gamma:
             attrs = ""
             for a in r.sample(ATTRS, r.randint(0, 2)):
                 attrs += " %s=%s" % (a, quoteattr(self.text(r)))
+            if r.random() < 0.1:          # the xml: prefix and a declared namespace prefix
+                attrs += ' xml:lang="en-GB"' if r.random() < 0.5 else ' xmlns:v="urn:verif:ns" v:flag=%s' % quoteattr(self.text(r))
             kind = r.random()
             if kind < 0.2 and tag not in ("storyID", "itemID"):
                 el = "<%s%s/>" % (tag, attrs)
@@ -117,7 +141,7 @@ class Gamma:
             else:
                 inner = ""
                 if r.random() < 0.7:
-                    inner += escape(self.text(r))
+                    inner += self.chars(r, self.text(r))
                 if depth < 4 and r.random() < 0.5:
                     inner += "".join(self.rich_children(r, depth + 1))
                 el = "<%s%s>%s</%s>" % (tag, attrs, inner, tag)
@@ -169,7 +193,7 @@ class Gamma:
                 return "<p/>" if r.random() < 0.5 else "<p></p>"
             if tok.startswith("w:"):            # a whitespace-only paragraph
                 return "<p>  \t </p>"
-            return "<p>%s %s</p>" % (escape(self.text(r)), escape(tok))
+            return "<p>%s</p>" % self.chars(r, self.text(r) + " " + tok)
         if tag == "roDelete":
             return "<roDelete><roID>%s</roID>%s</roDelete>" % ("RO-other" if tok.endswith(".foreign") else "RO1", self.marker(tok))
         # any other metadata leaf: text, sometimes attributes and children
@@ -182,6 +206,19 @@ class Gamma:
         return "<%s%s>%s</%s>" % (tag, attrs, inner, tag)
 
     def join(self, parts, depth):
+        if self.noise:
+            # comments and processing instructions between elements: not part of the document's content
+            rn = self.rng("noise", depth, len(parts), parts[0][:40] if parts else "")
+            noisy = []
+            for x in parts:
+                k = rn.random()
+                if k < 0.08:
+                    noisy.append("<!-- <story><storyID>S1</storyID></story> -->" + x)
+                elif k < 0.14:
+                    noisy.append("<?verif item=\"I1\"?>" + x)
+                else:
+                    noisy.append(x)
+            parts = noisy
         if not self.pretty:
             return "".join(parts)
         ind = "\n" + "  " * depth
